@@ -299,6 +299,11 @@ class Incarnation:
         return self._leaf(values, leaf, arr_dtype)
 
     def get_params_obj(self, op):
+        if op.get("transient") and not op.get("pobj"):
+            # built for this call only and dropped right after it: its memory (and its id()) is
+            # handed to the next object the caller builds
+            vals = self.plan["params"][op["params"]]["values"]
+            return self._build_params(vals, op.get("leaf", "float"), self.plan["params"][op["params"]].get("shocks_dtype", "float64"))
         key = op.get("pobj") or f"auto:{op['params']}:{op.get('leaf', 'float')}"
         if key not in self.params_objs:
             vals = self.plan["params"][op["params"]]["values"]
@@ -327,6 +332,8 @@ class Incarnation:
         return out
 
     def get_batch_obj(self, op):
+        if op.get("transient") and not op.get("bobj"):
+            return self.resolve_batch(op["batch"], op.get("bform", "np"))
         key = op.get("bobj") or f"auto:{op['batch']}:{op.get('bform', 'np')}"
         if key not in self.batch_objs:
             self.batch_objs[key] = self.resolve_batch(op["batch"], op.get("bform", "np"))
@@ -483,6 +490,8 @@ class Incarnation:
             return self.vf_np_objs[key]
         if sid not in self.vf_objs:
             raise _Skip(f"value arrays of op {sid} are not available")
+        if op.get("transient") and op.get("vform", "asis") in ("np", "jax"):
+            return [np.array(a) if op["vform"] == "np" else self.jnp.array(np.asarray(a)) for a in self.vf_objs[sid]]
         if op.get("vform", "asis") == "np":
             if sid not in self.vf_np_objs:
                 self.vf_np_objs[sid] = [np.asarray(a) for a in self.vf_objs[sid]]
